@@ -577,6 +577,8 @@ Pinv(a, index, ow) == PinvO(a, index, ow, 0, 1)
 \* ortho(max_rank = caps) on an island operand: caps is the per-bond list <<1, r_1, .., r_{d-1}, 1>>
 \* (asInt: the same cap on every bond, passed as an int).  The left sweep is exact, the right sweep
 \* cuts every bond of a left-orthonormal train: the result is the sum of the min(caps) largest terms.
+\* INFCAP stands for numpy.inf in the per-bond list ("this bond is not capped")
+INFCAP == 99
 IslOrthoTrunc(a, caps, asInt) ==
     /\ "IslOrthoTrunc" \in Ops /\ Closed(pool[a]) /\ HasIsl(pool[a])
     /\ LET o == pool[a]
@@ -672,7 +674,7 @@ Next ==
                          \/ \E s \in 1..(MaxD - 1), e \in 1..(MaxD - 1) :
                                 OrthoRight(a, s, e, FALSE) \/ OrthoRight(a, s, e, TRUE)
                          \/ Ortho(a)
-                         \/ \E caps \in [1..(Order(pool[a]) + 1) -> 1..3], asInt \in BOOL2 :
+                         \/ \E caps \in [1..(Order(pool[a]) + 1) -> {1, 2, 3, INFCAP}], asInt \in BOOL2 :
                                 /\ caps[1] = 1 /\ caps[Order(pool[a]) + 1] = 1
                                 /\ (asInt => \A t \in 2..Order(pool[a]) : caps[t] = caps[2])
                                 /\ (Lean => asInt)
